@@ -39,7 +39,9 @@ def make_permset(salt):
 def controlled_order(salt):
     import ovld.typemap as tm
 
-    if not salt:
+    if not salt or not hasattr(tm, "sort_types"):
+        # natural order; also the fallback if a refactoring removed the names this controller rebinds (the
+        # black-box configurations - registration order, subprocess hash seeds - still run)
         yield
         return
     _serial.clear()
